@@ -60,11 +60,8 @@ top:
 					result = tr.Result
 					break top
 				}
-				if s.Block {
-					result = tr
-					break top
-				}
-				// slip.ErrorPanic(s, depth, "return from unknown block: %s", tr.Tag)
+				result = tr
+				break top
 			}
 			// Anything other than ReturnResult continues.
 		}
